@@ -529,9 +529,51 @@ def g_c06(r, tier, env, Ls):
         cs.append(Case(problem_line(p, trace=0), meta, "solve", oracle=oracle_c06, tags=tags))
     return cs
 
+def oracle_norm(c, out):
+    """RMS over all cells and species of err/(atol_i + rtol*max(|y|,|ynew|)), floored at 1e-10 — in exact rationals"""
+    cmd, d = parse_kv(out or "")
+    if cmd != "norm":
+        return f"NormalizedError outcome '{(out or '')[:60]}'"
+    m = c.meta
+    ns, ncell = m["ns"], m["ncell"]
+    tot = F(0)
+    for ci in range(ncell):
+        for i in range(ns):
+            q = ci * ns + i
+            den = F(m["atol"][i]) + F(m["rtol"]) * max(abs(F(m["y"][q])), abs(F(m["yn"][q])))
+            tot += (F(m["err"][q]) / den) ** 2
+    exact = max(math.sqrt(float(tot / (ncell * ns))), 1.0e-10)
+    got = unhex(d["e"][0])
+    if abs(got - exact) > 1e-11 * exact:
+        return f"error norm is {got!r}, the RMS over all {ncell} cells x {ns} species is {exact!r} (L={m['L']})"
+    # IsConverged: no element with |r| > small and > atol and > rtol*|y|
+    conv = all(not (abs(m["err"][q]) > m["small"] and abs(m["err"][q]) > m["atol"][q % ns] and abs(m["err"][q]) > m["rtol"] * abs(m["yn"][q]))
+               for q in range(ncell * ns))
+    if d["conv"][0] != ("1" if conv else "0"):
+        return f"IsConverged returned {d['conv'][0]}, the documented test gives {int(conv)} (L={m['L']}, cells={ncell})"
+    return None
+
+def gen_norm_cases(r, Ls, n):
+    cs = []
+    for _ in range(n):
+        L = r.pick(Ls); ns = r.rng(1, 5); ncell = r.rng(1, 3 * max(L, 1) + 1)
+        atol = [r.pick([1e-3, 1e-6, 1e-9, 1e-12, 1e-14]) for _ in range(ns)]
+        rtol = r.pick([1e-3, 1e-6, 1e-8])
+        y = [G.gen_value(r, "conc") for _ in range(ncell * ns)]
+        yn = [v * (1 + 0.1 * (r.unit() - 0.5)) for v in y]
+        scale = r.pick([1e-12, 1e-8, 1e-4, 1.0])
+        err = [(r.unit() - 0.5) * scale * (abs(v) + 1e-6) if r.chance(0.8) else 0.0 for v in y]
+        small = r.pick([1e-40, 1e-12])
+        line = " ".join(["norm", str(L), str(ncell), str(ns)] + [hexd(v) for v in atol] + [hexd(rtol)] + [hexd(v) for v in y + yn + err] + [hexd(small)])
+        tags = ["norm", "L=%d" % L]
+        if L and ncell % L: tags.append("partial_group")
+        if L and ncell > L and ncell % L: tags.append("full+partial_group")
+        cs.append(Case(line, dict(L=L, ns=ns, ncell=ncell, atol=atol, rtol=rtol, y=y, yn=yn, err=err, small=small), "norm", oracle=oracle_norm, tags=tags))
+    return cs
+
 def g_c07(r, tier, env, Ls):
     n = 200 if tier == "quick" else 4000
-    cs = []
+    cs = gen_norm_cases(r, Ls, 300 if tier == "quick" else 5000)
     for _ in range(n):
         p = gen_solve_problem(r, env, Ls, integ=0 if r.chance(0.75) else 1, stiff=r.chance(0.5))
         if p["integ"] == 0:
@@ -794,7 +836,7 @@ def gen_build_case(r, errors=False):
     sysdecl += [str(nph)]
     aq_full = []
     if nph:
-        sysdecl += ["aq", str(len(aq))] + [t for n in aq for t in decl(n)]
+        sysdecl += ["aq", r.pick(["-", "aq", "aqueous", "gas"]), str(len(aq))] + [t for n in aq for t in decl(n)]
         aq_full = ["aq." + n for n in aq]
     avail = gas + aq_full
     nrx = r.rng(1, 4)
@@ -826,7 +868,7 @@ def gen_build_case(r, errors=False):
     for d in gas_decl:
         if d[1] == "0": tol[d[0]] = unhex(d[3]) if d[2] == "1" else 1e-3
     if nph:
-        k = sysdecl.index("aq") + 2
+        k = sysdecl.index("aq") + 3
         for q in range(len(aq)):
             d = sysdecl[k + 4 * q:k + 4 * q + 4]
             tol["aq." + d[0]] = unhex(d[3]) if d[2] == "1" else 1e-3
